@@ -660,10 +660,34 @@ def r19(ctx):
                 return 'const' if ',#-1}' in k.replace(' ', '') or k.rstrip(')').endswith('#-1}') else user
         return user
 
+    flags = {}
+    for nid, d, rhs, op, lhs in fn.assignments():
+        if op == 'init' and d and rhs is not None and not any(d2 == d and o2 != 'init' for n2, d2, r2, o2, l2 in fn.assignments()):
+            flags[d.split(':')[-1]] = rhs
+
     def on_edge(user, b, j, dnf):
+        blk = fn.blocks.get(b)
+        if blk is not None and blk.cond is not None and len(blk.succs) == 2:
+            cv = fn.nodes[fn.strip(blk.cond, casts=True)]
+            if cv.get('k') == 'DeclRefExpr' and cv.get('name') in flags:
+                # the condition is a bool local defined once: what its initialiser says on this edge
+                sub = facts.implied(fn, flags[cv['name']], j == 0)
+                if len(sub) == 1:
+                    for a2 in sub[0]:
+                        k2, p2 = facts.atom_key(fn, a2)
+                        if k2 == '(this.m_parts.back().second < #0)':
+                            return 'const' if p2 else 'var'
         if len(dnf) == 1:
             for a in dnf[0]:
                 k, pol = facts.atom_key(fn, a)
+                if k in flags:
+                    # a bool local defined once: what its initialiser says
+                    sub = facts.implied(fn, flags[k], pol)
+                    if len(sub) == 1:
+                        for a2 in sub[0]:
+                            k2, p2 = facts.atom_key(fn, a2)
+                            if k2 == '(this.m_parts.back().second < #0)':
+                                return 'const' if p2 else 'var'
                 if k == '(this.m_parts.back().second < #0)':
                     return 'const' if pol else 'var'
         return user
